@@ -504,7 +504,8 @@ func objstmFaults(c *hx.Ctx, d int, seed uint64) {
 	lay.ObjStm, lay.XrefStream = true, true
 	render(doc, lay, nil)
 	ns, nm := nstm, stmMembers
-	edge := []string{"0", "-1", "1", "2147483648", "4294967296", "9223372036854775807", "-9223372036854775808", "99999999", "1.5", "(x)"}
+	shapes := stmShapes(doc, lay)
+	edge :=[]string{"0", "-1", "1", "2147483648", "4294967296", "9223372036854775807", "-9223372036854775808", "99999999", "1.5", "(x)"}
 	for o := 0; o < ns; o++ {
 		var fs []fault
 		for _, v := range edge {
@@ -518,6 +519,9 @@ func objstmFaults(c *hx.Ctx, d int, seed uint64) {
 				fs = append(fs, fault{Kind: "objstm", Ordinal: o, Site: site, Value: "off=" + v})
 			}
 			fs = append(fs, fault{Kind: "objstm", Ordinal: o, Site: site, Value: "swap=1"})
+		}
+		if o < len(shapes) {
+			fs = append(fs, ownSizeFaults(o, shapes[o], c.Thorough())...)
 		}
 		for _, f := range fs {
 			runPDF(c, kase{Format: "pdf", Doc: d, Seed: seed, Faults: []fault{f}, Layout: lay}, "p")
@@ -689,7 +693,7 @@ func pdfCatalogue(doc writers.LDoc, lay writers.Layout) []fault {
 				out = append(out, fault{Kind: "data-flip", Ordinal: si.ordinal, Site: s*31 + 1})
 			}
 			out = append(out, fault{Kind: "data-trunc", Ordinal: si.ordinal, Site: si.dataLen / 2}, fault{Kind: "data-trunc", Ordinal: si.ordinal, Site: 1})
-			for _, v := range append(numValues, fmt.Sprintf("%d 0 R", si.num), "9999 0 R", "(x)", "-5") {
+			for _, v := range append(numValues, fmt.Sprintf("%d 0 R", si.num), "9999 0 R", "(x)", "-5", fmt.Sprint(si.dataLen-1), fmt.Sprint(si.dataLen+1)) { // the last two: one to each side of the true length
 				out = append(out, fault{Kind: "length", Ordinal: si.ordinal, Value: v})
 			}
 			for _, v := range filterValues() {
@@ -974,7 +978,7 @@ func section(name string, f func()) {
 }
 
 func Run(c *hx.Ctx) {
-	c.Rep.Rule = "valid documents of all seven formats from the harness writers (PDF in random physical layouts, DOCX, ODT, XLSX, PPTX, EPUB, HTML) x every single fault of the catalogue at every site (numbers -> 0,-1,2^31,2^63-1; references -> self/root/missing; delimiters removed/added; objects/members dropped/duplicated; stream data flipped/truncated; objects and stream data replaced by 20 thousand / 6 million nested opening delimiters (balanced and not); /N, /First and every header pair of every object stream at the edges of their types and out of order; /Length, every number, the delimiters and the filter of every cross-reference stream and object stream dictionary, files opened from disk; Form XObjects drawing Form XObjects (self, mutual, chains with fan-out k^d); every stream re-announced under every filter name/abbreviation/chain with edge decode parameters, over its own data and over runs of 0xFF/0x00/0xAA; /Length, xref entries, /W, /Prev, /Size, trailer; truncation at token boundaries; targeted field rewrites); authored PDFs: one font of each kind with every number of every font object/CMap/content stream and every 16-bit field of the embedded TrueType program at type edges, cmap segment fan-out; reference graphs (chains of indirect /Length, list-shaped and inline page trees, colour-space cycles, shared DAGs, images announcing w x h over 2 x 2 data, JPEG headers) also through Reader.ResolveDeep, resolver.ResolveDeep, ExtractPageImages+ToPNG; page geometry (every number of the page dictionary and of an unfiltered content stream at type edges and magnitudes in between, wide pages x huge fonts x many lines, repeated /Contents) through every option (PreserveLayout, ByColumn, JoinParagraphs, header/footer exclusion) and analysis entry point; structurally rich DOCX/ODT/PPTX with every numeric attribute and element text -> 0,-1,2^31-1,2^31,2^32,999999999,2^63-1,-2^63; the numeric fields the specifications define but the writers never emit, injected with the same values (DOCX, ODT, PPTX, XLSX, HTML); every identifier reference inside the XML members (style inheritance and links, numbering, relationship ids, spine ids) retargeted to its own definition, to every definition that reaches it, to nothing; authored style graphs (self, cycles, tail into a cycle, long chains, stars) with every style used; every element name and every container the specifications allow inside itself nested 130 thousand deep under a 32 MiB stack limit; products of bounded numbers (column letters, n merged regions x the grid, k sheets x the grid, k spanning cells x r rows, spine repetitions, inline nesting in HTML/EPUB); + sampled double faults + byte mutation + hostile token soup into the raw parsers (and Go native fuzz targets under harness/c02/fuzz, not part of the check); every case runs 1-8 public entry points under a 10 s deadline and a 3 GiB heap limit; every case is non-trivial; + the bounded-work correspondence (sections bounds-core, bounds-data, bounds-office): every guarded function of the C02 repairs is run beside its Lean model on generated inputs, mostly valid structured ones (object graphs of /Length, /Kids, colour-space and ResolveDeep references incl. cycles, shared subtrees and missing objects; object-stream headers; CCITT runs; fragment layouts; images; /Contents arrays; span/level/space attributes; inline containers; style tables; column letters; merged regions; workbook sheet entries; table grids; HTML trees; cmap segments; bfrange arrays) plus hostile values at type edges, and the edge of every constant from both sides (16 nested loads, 10000 page-tree levels, 2000/100 resolve levels, 64 MiB images and page content, 2^20 buckets, 8 colour-space levels, 200 columns/100 gap lines, 1024 spans and spaces, level 8, 10000 inline and tree levels, 2^40 columns, 8 Mi + 16 per element grid cells, 2^20 table cells, 65536 codes)"
+	c.Rep.Rule = "valid documents of all seven formats from the harness writers (PDF in random physical layouts, DOCX, ODT, XLSX, PPTX, EPUB, HTML) x every single fault of the catalogue at every site (numbers -> 0,-1,2^31,2^63-1; references -> self/root/missing; delimiters removed/added; objects/members dropped/duplicated; stream data flipped/truncated; objects and stream data replaced by 20 thousand / 6 million nested opening delimiters (balanced and not); /N, /First and every header pair of every object stream at the edges of their types, out of order, and at the edges of the stream's own header, body and decoded length (one to each side: numbers that are plausible alone and wrong once /First is added); /Length, every number, the delimiters and the filter of every cross-reference stream and object stream dictionary, files opened from disk; Form XObjects drawing Form XObjects (self, mutual, chains with fan-out k^d); every stream re-announced under every filter name/abbreviation/chain with edge decode parameters, over its own data and over runs of 0xFF/0x00/0xAA; /Length, xref entries, /W, /Prev, /Size, trailer; truncation at token boundaries; targeted field rewrites); authored PDFs: one font of each kind with every number of every font object/CMap/content stream and every 16-bit field of the embedded TrueType program at type edges, cmap segment fan-out; reference graphs (chains of indirect /Length, list-shaped and inline page trees, colour-space cycles, shared DAGs, images announcing w x h over 2 x 2 data, JPEG headers) also through Reader.ResolveDeep, resolver.ResolveDeep, ExtractPageImages+ToPNG; page geometry (every number of the page dictionary and of an unfiltered content stream at type edges and magnitudes in between, wide pages x huge fonts x many lines, repeated /Contents) through every option (PreserveLayout, ByColumn, JoinParagraphs, header/footer exclusion) and analysis entry point; structurally rich DOCX/ODT/PPTX with every numeric attribute and element text -> 0,-1,2^31-1,2^31,2^32,999999999,2^63-1,-2^63; the numeric fields the specifications define but the writers never emit, injected with the same values (DOCX, ODT, PPTX, XLSX, HTML); every identifier reference inside the XML members (style inheritance and links, numbering, relationship ids, spine ids) retargeted to its own definition, to every definition that reaches it, to nothing; authored style graphs (self, cycles, tail into a cycle, long chains, stars) with every style used; every element name and every container the specifications allow inside itself nested 130 thousand deep under a 32 MiB stack limit; products of bounded numbers (column letters, n merged regions x the grid, k sheets x the grid, k spanning cells x r rows, spine repetitions by idref and by n manifest items whose hrefs are n spellings of one content document (dot segments, percent-encoding, own directory) with what is kept and returned compared to the unpacked archive, inline nesting in HTML/EPUB); + sampled double faults + byte mutation + hostile token soup into the raw parsers (and Go native fuzz targets under harness/c02/fuzz, not part of the check); every case runs 1-8 public entry points under a 10 s deadline and a 3 GiB heap limit; every case is non-trivial; + the bounded-work correspondence (sections bounds-core, bounds-data, bounds-office): every guarded function of the C02 repairs is run beside its Lean model on generated inputs, mostly valid structured ones (object graphs of /Length, /Kids, colour-space and ResolveDeep references incl. cycles, shared subtrees and missing objects; object-stream headers; CCITT runs; fragment layouts; images; /Contents arrays; span/level/space attributes; inline containers; style tables; column letters; merged regions; workbook sheet entries; table grids; HTML trees; cmap segments; bfrange arrays) plus hostile values at type edges, and the edge of every constant from both sides (16 nested loads, 10000 page-tree levels, 2000/100 resolve levels, 64 MiB images and page content, 2^20 buckets, 8 colour-space levels, 200 columns/100 gap lines, 1024 spans and spaces, level 8, 10000 inline and tree levels, 2^40 columns, 8 Mi + 16 per element grid cells, 2^20 table cells, 65536 codes)"
 	section("ops", func() {
 		xrefStreamOps(c)
 		gridOps(c)
